@@ -86,4 +86,13 @@ MUTANTS = {
         "nsec_never": [("_handlers/query_handler.py", "            elif type_ in missing_types:", "            elif False:")],
         "ptr_ttl_host": [("_services/info.py", "            override_ttl if override_ttl is not None else self.other_ttl,\n            self._name,\n            0.0,", "            override_ttl if override_ttl is not None else self.host_ttl,\n            self._name,\n            0.0,")],
     },
+    "C15": {
+        "indexerror_not_contained": [("_protocol/incoming.py", "DECODE_EXCEPTIONS = (IndexError, struct.error, IncomingDecodeError)", "DECODE_EXCEPTIONS = (struct.error, IncomingDecodeError)")],
+        "size_guard_removed": [("_listener.py", "        if data_len > _MAX_MSG_ABSOLUTE:", "        if False and data_len > _MAX_MSG_ABSOLUTE:")],
+        "deferred_not_popped": [("_listener.py", "        packets = self._deferred.pop(addr, [])", "        packets = list(self._deferred.get(addr, []))")],
+        "d5_reverted": [("_protocol/incoming.py", "                if len(seen_pointers) >= MAX_DNS_LABELS:", "                if False:")],
+        "d6_reverted": [("_protocol/incoming.py", "                if '\\ufffd' in label and len(label.encode('utf-8')) > MAX_DNS_LABEL_LENGTH:", "                if False:")],
+        "invalid_still_dispatched": [("_listener.py", "            return\n\n        if not msg.is_query():", "            pass\n\n        if not msg.is_query():")],
+        "read_others_unguarded": [("_protocol/incoming.py", "            try:\n                self._read_others()\n            except DECODE_EXCEPTIONS:", "            try:\n                self._read_others()\n            except IncomingDecodeError:")],
+    },
 }
